@@ -413,7 +413,7 @@ pub fn property() -> Property {
                 Step::Enumerate { kind: "data_struct", count: 247 * N_FC * 4 },
                 Step::Enumerate { kind: "data_addr", count: 3 << 16 },
                 Step::Enumerate { kind: "data_saps", count: 1 << 16 },
-                Step::Pbt { kind: "data_random", cases: 40_000, max_len: 12 },
+                Step::Pbt { kind: "data_random", cases: 400_000, max_len: 12 },
             ],
             Tier::Thorough => vec![
                 Step::Enumerate { kind: "fc_bytes", count: 256 },
